@@ -492,7 +492,24 @@ class CoreDriver:
         files = [h.session for h in w.ctl.open_handles()]
         lsn = [[l.owner, l.port] for l in net.open_listeners() if l.owner]
         gated = sorted({k[0] for k, f in self.held.items() if not f.done()} | {s for s, f in self.lheld.items() if not f.done()})
-        net.log("Snap", used=used, uused=uused, pool=pool, haspool=haspool, table=sorted(table), hastable=hastable, dsock=sorted(dsock),
+        # tasks of the server that belong to a session whose control socket the server has closed and which is gone from the table
+        zomb = set()
+        try:
+            for t in self.loop.all_tasks():
+                try:
+                    s = t.get_context().get(simnet.CUR_SESSION)
+                    mine = "/aioftp/" in t.get_coro().cr_code.co_filename
+                except Exception:
+                    continue
+                if not s or not mine or s in table:
+                    continue
+                ctl = [c for c in net.conns if c.kind == "ctl" and c.session == s]
+                if ctl and (ctl[-1].srv.closing or ctl[-1].srv.closed):
+                    zomb.add(s)
+        except Exception:
+            zomb = set()
+        closing = getattr(self, "_closing", None)
+        net.log("Snap", zomb=sorted(zomb), closing=closing is not None, closeok=closing is None or closing.done(), used=used, uused=uused, pool=pool, haspool=haspool, table=sorted(table), hastable=hastable, dsock=sorted(dsock),
                 files=sorted(files), lsn=sorted(lsn), sess=sess, gated=gated, hastree=True, tree=w.snapshot(),
                 ntasks=len(self.loop.all_tasks()))
 
